@@ -517,6 +517,9 @@ func (c *checker) attribute(x *execRun, who string, task, pred map[int]*span, by
 }
 
 func (c *checker) checkProbes(x *execRun) {
+	if x.identBad > 0 {
+		c.add("C15", "identifier-captured", "exec %d (%s): a directive argument mentions the enclosing function's variable err, but when it was evaluated the name denoted an identifier introduced by generated code", x.idx, x.prog.Name)
+	}
 	n := len(x.prog.Probes)
 	if n == 0 {
 		return
